@@ -173,6 +173,49 @@ def assemble(template_path, unit, default_props, skip_fns=None):
                                   'sha256': hashlib.sha256(txt.encode()).hexdigest(), 'props': default_props})
             i += 1
             continue
+        if s.startswith('//@rules '):
+            # `//@rules file=… name=RULES enum_file=… enum=TokenKind`: the Pratt table `const RULES: [ParseRule; N]` is indexed by
+            # `kind as usize`; row i therefore belongs to the i-th variant of the fieldless enum (declaration order = discriminant,
+            # Rust reference). Generated from the real const on every run: spec functions token kind -> precedence / handler names.
+            kv = _parse_kv(s[9:])
+            src = get_source(kv['file'])
+            it = src.find(kv['name'], kind='const')
+            txt = src.text_of(it)
+            code = _code_only(txt)
+            rows = re.findall(r'ParseRule\s*\{\s*prefix\s*:\s*(None|Some\(\s*Parser::(\w+)\s*\))\s*,\s*infix\s*:\s*(None|Some\(\s*Parser::(\w+)\s*\))\s*,\s*precedence\s*:\s*Precedence::(\w+)\s*,?\s*\}', code)
+            nrows_decl = re.search(r'\[\s*ParseRule\s*;\s*(\d+)\s*\]', code)
+            if not rows or not nrows_decl or int(nrows_decl.group(1)) != len(rows):
+                raise ExtractError("cannot parse the rows of const %s (%d rows parsed, declared %s)" % (kv['name'], len(rows), nrows_decl.group(1) if nrows_decl else '?'))
+            esrc = get_source(kv['enum_file'])
+            eit = esrc.find(kv['enum'], kind='enum')
+            ecode = _code_only(esrc.text_of(eit))
+            ebody = re.sub(r'#\[[^\]]*\]', '', ecode[ecode.index('enum'):])
+            vs = _variants_of(ebody)
+            if any(t for _, t in vs) or '=' in ebody[ebody.index('{'):]:
+                raise ExtractError("enum %s: the rule table needs a fieldless enum without explicit discriminants" % kv['enum'])
+            names = sorted(set([r[1] for r in rows if r[1]] + [r[3] for r in rows if r[3]]))
+            en = kv['enum']
+            out.append('// generated from %s:%d (const %s, %d rows) and %s:%d (enum %s, %d variants); row i <-> i-th variant'
+                       % (kv['file'], src.line_of(it.start), kv['name'], len(rows), kv['enum_file'], esrc.line_of(eit.start), en, len(vs)))
+            out.append('#[allow(non_camel_case_types)]')
+            out.append('#[derive(Clone, Copy)]')
+            out.append('pub enum ParseFnName { %s }' % ', '.join(names))
+            out.append('pub spec const RULE_ROWS: int = %d;' % len(rows))
+            out.append('pub spec const TOKEN_KINDS: int = %d;' % len(vs))
+            n = min(len(rows), len(vs))
+            def arms(f):
+                a = ' '.join('%s::%s => %s,' % (en, vs[i][0], f(rows[i])) for i in range(n))
+                if len(vs) > n:
+                    a += ' _ => arbitrary(),'
+                return a
+            out.append('pub open spec fn rule_precedence(k: %s) -> Precedence { match k { %s } }' % (en, arms(lambda r: 'Precedence::' + r[4])))
+            out.append('pub open spec fn rule_prefix(k: %s) -> Option<ParseFnName> { match k { %s } }' % (en, arms(lambda r: 'Some(ParseFnName::%s)' % r[1] if r[1] else 'None')))
+            out.append('pub open spec fn rule_infix(k: %s) -> Option<ParseFnName> { match k { %s } }' % (en, arms(lambda r: 'Some(ParseFnName::%s)' % r[3] if r[3] else 'None')))
+            asm.functions.append({'name': 'const ' + kv['name'], 'file': kv['file'], 'line': src.line_of(it.start),
+                                  'sha256': hashlib.sha256(txt.encode()).hexdigest(), 'props': default_props})
+            asm.dropped.append('const %s: the function pointers of the rows are kept as names only (ParseFnName); the table becomes three spec functions over %s' % (kv['name'], en))
+            i += 1
+            continue
         if s.startswith('//@lemma '):
             # names an obligation for a hand-written proof fn / verified spec that follows
             kv = _parse_kv(s[9:])
